@@ -74,6 +74,21 @@ structure RefParsed where
   href : List Char
   title : List Char
 
+/-- what follows the destination: optional title (with the roll-back when text follows it), nothing else up to the end of the line;
+    `(lines, title)`, or `none` for "return False" -/
+def refTail (ext : IExt) (str : List Char) (max dpos lines1 : Nat) : Option (Nat × List Char) :=
+  let r2 := refSkipNl str max (max + 1) dpos lines1
+  let tl : Nat × Nat × List Char :=                       -- position, lines, title
+    match parseLinkTitle ext str r2.1 max with
+    | some (tpos, tstr) =>
+      if r2.1 < max && dpos != r2.1 then (tpos, r2.2 + countNl ((str.take tpos).drop r2.1), tstr) else (dpos, lines1, [])
+    | none => (dpos, lines1, [])
+  let p3 := refSkipSp str max (max + 1) tl.1
+  let tl2 : Nat × Nat × List Char :=                      -- text after the title: roll back to the destination
+    if p3 < max && !(str[p3]? == some '\n') && !tl.2.2.isEmpty then (refSkipSp str max (max + 1) dpos, lines1, [])
+    else (p3, tl.2.1, tl.2.2)
+  if tl2.1 < max && !(str[tl2.1]? == some '\n') then none else some (tl2.2.1, tl2.2.2)
+
 /-- the parse of the stripped string; `none` = "return False" -/
 def refParse (ext : IExt) (normRef : List Char → List Char) (str : List Char) : Option RefParsed :=
   let max := str.length
@@ -81,27 +96,17 @@ def refParse (ext : IExt) (normRef : List Char → List Char) (str : List Char) 
   | none => none
   | some (labelEnd, lines0) =>
     if !(str[labelEnd + 1]? == some ':') then none else
-    let (p1, lines1) := refSkipNl str max (max + 1) (labelEnd + 2) lines0
-    match parseLinkDestination ext str p1 max with
+    let r1 := refSkipNl str max (max + 1) (labelEnd + 2) lines0
+    match parseLinkDestination ext str r1.1 max with
     | none => none
     | some (dpos, dstr) =>
-      let href := ext.normLink dstr
-      if !validateLink href then none else
-      let (p2, lines2) := refSkipNl str max (max + 1) dpos lines1
-      let tl : Nat × Nat × List Char :=                       -- position, lines, title
-        match parseLinkTitle ext str p2 max with
-        | some (tpos, tstr) =>
-          if p2 < max && dpos != p2 then (tpos, lines2 + countNl ((str.take tpos).drop p2), tstr) else (dpos, lines1, [])
-        | none => (dpos, lines1, [])
-      let p3 := refSkipSp str max (max + 1) tl.1
-      let tl2 : Nat × Nat × List Char :=                      -- text after the title: roll back to the destination
-        if p3 < max && !(str[p3]? == some '\n') && !tl.2.2.isEmpty then (refSkipSp str max (max + 1) dpos, lines1, [])
-        else (p3, tl.2.1, tl.2.2)
-      if tl2.1 < max && !(str[tl2.1]? == some '\n') then none else
-      let raw := (str.take labelEnd).drop 1
-      let label := normRef raw
-      if label.isEmpty then none else
-      some { lines := tl2.2.1, label := label, raw := raw, href := href, title := tl2.2.2 }
+      if !validateLink (ext.normLink dstr) then none else
+      match refTail ext str max dpos r1.2 with
+      | none => none
+      | some (lines, title) =>
+        let raw := (str.take labelEnd).drop 1
+        if (normRef raw).isEmpty then none
+        else some { lines := lines, label := normRef raw, raw := raw, href := ext.normLink dstr, title := title }
 
 def lookupRef (refs : List (List Char × List Char × List Char)) (k : List Char) : Option (List Char × List Char) :=
   (refs.find? (·.1 == k)).map (·.2)
